@@ -208,6 +208,16 @@ def check_case(case):
         for pos in (0, 1):
             variants(r, "cs%d:Umis(%s,%d)" % (k, tg, case["i"]), symmetry.Umis, [a_, b_, k], pos, 1e-4, 0.2, skip=nolist)
     variants(r, "cs%d:Umis(axis24,%d)" % (k, case["i"]), symmetry.Umis, [Ua, Ub, k], 2, 1e-4, None, skip=("float", "np.float64", "0-d array"))
+    # both arguments in the same non-default dtype at once
+    ref_ab = np.asarray(symmetry.Umis(Ua, Ub, k), float)
+    for dt in (np.int64, np.int32, np.int8, np.float32):
+        try:
+            got = np.asarray(symmetry.Umis(np.rint(Ua).astype(dt), np.rint(Ub).astype(dt), k), float)
+            dd = float(np.max(np.abs(got - ref_ab))) if got.shape == ref_ab.shape else float("inf")
+        except Exception as ex:
+            dd = float("inf")
+        r.check("both-dtype", dd, 0.2 if dt is np.float32 else 1e-4, "cs%d:Umis(axis24,%d):both as %s" % (k, case["i"], np.dtype(dt).name),
+                "Umis of two axis-aligned rotations given as %s arrays" % np.dtype(dt).name)
     mm = np.asarray(symmetry.Umis(U1, U1, k), float)
     r.require(float(mm[:, 1].min()) < 1e-4, "cs%d:U=%s:self" % (k, q1), "Umis(U,U) contains 0", 0, float(mm[:, 1].min()))
     return r
